@@ -113,7 +113,7 @@ class PROP(PropCheck):
                 "C16_key_eq_refl_scalar", "C16_map_insert_spec", "C16_map_get_spec", "C16_map_contains_spec", "C16_maps_independent",
                 "C16_non_map_is_error", "C16_near_keys_refuted",
                 "C16_key_eq_cong", "C16_find_put", "C16_step_refines", "C16_history_refines", "C16_history_from_empty",
-                "C16_history_distinct", "C16_cstep_is_native_insert", "C16_history_example"]
+                "C16_history_distinct", "C16_cstep_is_native_insert", "C16_cstep_is_native_get", "C16_cstep_is_native_contains", "C16_history_example"]
     audit_modules = ["C16", "C16b"]
     allowed_axioms = ("FloatAxioms.eqb_spec", "eqb_spec")
     coq_imports = ["Obs"]
